@@ -156,11 +156,17 @@ theorem source_chunk_len_is_what_is_left {ρ' : Type} (k : Nat) (it : RSP.Buffer
     (GenP.ChunkIt.len k it : RSP.PF ρ' _) = .ret (.norm (it.initial_len - it.current_idx)) :=
   GenThms.Proto.chunk_len k it h
 
-/-- the value iterators of chunks define nothing beyond what the theorems above cover: the wrapper's chunk iterator `next` and
-`len` (no `Drop`), `Taken` `next` and `size_hint` (`Props/C08.source_chunk_iterator_overrides`) — every other way of consuming a
+/-- **… and `size_hint` announces the same number, exactly** (`(len, Some(len))`: std's requirement on an `ExactSizeIterator`,
+from which `take`, `zip`, `collect`, … compute; the pinned crate kept the default `(0, None)` — defect D16, repaired by `bfb3855`) -/
+theorem source_chunk_size_hint_is_exact {ρ' : Type} (k : Nat) (it : RSP.BufferedIter) (h : it.current_idx ≤ it.initial_len) :
+    (GenP.ChunkIt.size_hint k it : RSP.PF ρ' _) = .ret (.norm (it.initial_len - it.current_idx, some (it.initial_len - it.current_idx))) :=
+  GenThms.Proto.chunk_size_hint k it h
+
+/-- the value iterators of chunks define nothing beyond what the theorems above cover: the wrapper's chunk iterator `next`,
+`size_hint` and `len` (no `Drop`), `Taken` `next` and `size_hint` (`Props/C08.source_chunk_iterator_overrides`) — every other way of consuming a
 chunk (`nth`, `last`, `fold`, `count`, `skip`, `peekable`, …) is std's default implementation over `next` -/
 theorem source_chunk_iterator_defines_next_and_len_only :
-    GenP.ChunkIt.iterator_overrides = ["next"] ∧ GenP.ChunkIt.exact_size_overrides = ["len"] ∧ GenP.ChunkIt.has_drop = false :=
+    GenP.ChunkIt.iterator_overrides = ["next", "size_hint"] ∧ GenP.ChunkIt.exact_size_overrides = ["len"] ∧ GenP.ChunkIt.has_drop = false :=
   GenThms.Proto.chunk_iterator_defines_next_and_len_only
 
 end Orx.Props.C03
